@@ -444,7 +444,7 @@ class Hist:
                                "frames_changed": before != after, "touched": touched, "alias": self.alias(name)})
         else:
             self.obs.append("R error " + out[:120])
-            self.shows.append({"kind": "remember-error", "name": name, "msg": out[:200]})
+            self.shows.append({"kind": "remember-error", "name": name, "msg": out[:200], "alias": self.alias(name), "touched": touched})
 
     def do_show(self, name, shards, fail=None, abort=None):
         self.amend_failed(name)
